@@ -1664,6 +1664,23 @@ def c11_algebra(tier, seed):
             if not good:
                 viol.append({'id': 'array-inplace-%s-%s' % (op, getattr(other, '__name__', 'x')), 'input': "a = np.array([1., 2.]) * metre; a %s <%s>" % (op, 'seconds' if other is sec else 'metres' if other is met else other()),
                              'observed': str(got), 'expected': str(want)})
+    # binary operators on array quantities leave their operands alone (the result is a new object): asked twice, the same answer
+    with real.quiet():
+        for opn, f in (('+', lambda x, y: x + y), ('-', lambda x, y: x - y), ('*', lambda x, y: x * y), ('/', lambda x, y: x / y)):
+            for mk_b in (lambda: np.array([3.0, 4.0]) * eval_qty('1 m'), lambda: np.array([3, 4]) * eval_qty('1 m')):
+                a, b = np.array([1.0, 2.0]) * eval_qty('1 m'), mk_b()
+                n += 1
+                try:
+                    r1 = f(a, b)
+                    r2 = f(a, b)
+                    ok_ = [float(x) for x in np.asarray(a)] == [1.0, 2.0] and [float(x) for x in np.asarray(b)] == [3.0, 4.0] and \
+                        [float(x) for x in np.asarray(r1)] == [float(x) for x in np.asarray(r2)] and r1 is not a
+                    got_ = {'a after': [float(x) for x in np.asarray(a)], 'first': [float(x) for x in np.asarray(r1)], 'second': [float(x) for x in np.asarray(r2)]}
+                except Exception as e:    # noqa
+                    ok_, got_ = False, 'raised %s' % type(e).__name__
+                if not ok_:
+                    viol.append({'id': 'array-operands-%s-%s' % (opn, str(np.asarray(b).dtype)), 'input': 'a = [1., 2.] m; b = %s m; a %s b, twice' % (list(np.asarray(b)), opn), 'observed': got_,
+                                 'expected': 'operands unchanged, the same result both times'})
     N = 400 if tier == 'quick' else 4000
     with real.quiet():
         for it in range(N):
